@@ -851,11 +851,29 @@ class Dohtml(_InstallWrapper):
         dirs = list(dirs)
         if dirs:
             if self.opts.recursive:
-                dirs = (d for d in dirs if d not in self.opts.excluded_dirs)
-                self.install_from_dirs(dirs)
+                for d in dirs:
+                    if d not in self.opts.excluded_dirs:
+                        self._install_from_dir(d)
             else:
                 raise IpcCommandError(f"{dirs[0]!r} is a directory, missing -r option?")
         self.install((f, os.path.basename(f)) for f in files if self._allowed_file(f))
+
+    def _install_from_dir(self, d):
+        """Install the allowed files below a directory, keeping its layout.
+
+        The extension / file name filters and -x hold at every level, not
+        just for the operands themselves.
+        """
+        base_dir = os.path.basename(d.rstrip(os.path.sep))
+        for dirpath, dirnames, filenames in os.walk(d):
+            dirnames[:] = [x for x in dirnames if x not in self.opts.excluded_dirs]
+            allowed = [f for f in filenames if self._allowed_file(f)]
+            if allowed:
+                dest_dir = os.path.normpath(
+                    pjoin(base_dir, os.path.relpath(dirpath, d))
+                )
+                self.install_dirs([dest_dir])
+                self.install((pjoin(dirpath, f), pjoin(dest_dir, f)) for f in allowed)
 
 
 class _AlterFiles(IpcCommand):
